@@ -141,6 +141,30 @@ pub fn totality_texts(tier: Tier) -> Vec<(String, String)> {
         v.push((format!("cycle-0.4:{}", n), format!("pragma solidity ^0.4.24;\n{}", t)));
         v.push((format!("cycle-nopragma:{}", n), t.to_string()));
     }
+    // ---- string literals with escape sequences, well-formed and cut short (the lexer does not validate them), as revert
+    //      strings on both sides of 0.8.4, as hashed data and as plain expression
+    for esc in [
+        "\\n", "\\\\", "\\\"", "\\'", "\\x41", "\\x4", "\\x", "\\u0041", "\\u20", "\\u", "\\u{41}", "\\U0001F512", "\\0", "\\q", "\\\n", "\\xZZ", "\\uD800", "\\uDFFF\\uD800",
+        "%s", "{}", "{0}", "\\t\\r\\n", "\u{e9}\\", "\\\u{1f512}",
+    ] {
+        for (pfx, q) in [("", '"'), ("unicode", '"'), ("", '\''), ("hex", '"')] {
+            if pfx == "hex" && !esc.chars().all(|c| c.is_ascii_hexdigit()) {
+                continue;
+            }
+            let close_unsafe = esc.ends_with('\\') && !esc.ends_with("\\\\");
+            let body_long = format!("a revert string that is long enough to count {}{}", esc, if close_unsafe { " " } else { "" });
+            let body_short = format!("{}{}", esc, if close_unsafe { " " } else { "" });
+            for body in [body_short, body_long] {
+                let lit = format!("{}{}{}{}", pfx, q, body, q);
+                for ver in ["0.8.3", "0.8.19"] {
+                    v.push((
+                        format!("escape:{}:{}", lit, ver),
+                        format!("pragma solidity {};\ncontract C {{\n  function f(bool ok) public {{\n    require(ok, {});\n    bytes32 h = keccak256({});\n    revert({});\n  }}\n}}\n", ver, lit, lit, lit),
+                    ));
+                }
+            }
+        }
+    }
     // ---- calls without arguments / unusual argument shapes
     for c in [
         "address()",
